@@ -93,6 +93,14 @@ func ruleL2(c *Ctx, min int, rels ...string) {
 			c.ok(key, fn.Pos(), "reviewed: %s", why)
 			continue
 		}
+		// an unexported function all of whose callers test the value itself before using it: nil is its way of
+		// saying "nothing", and no caller can mistake it for a value
+		if fn.Parent() == nil && !ast.IsExported(fn.Name()) {
+			if why := c.callersTestResult(fn); why == "" {
+				c.ok(key, fn.Pos(), "every call site tests the first result against nil before any other use")
+				continue
+			}
+		}
 		// hook closures return (nil, err)/(hook, nil) — a (nil, nil) from an unexported closure whose value is discarded by the parser (G6) is harmless
 		if fn.Parent() != nil && (isNamed(sig.Results().At(0).Type(), modPath+"/bql/semantic", "ClauseHook") || isNamed(sig.Results().At(0).Type(), modPath+"/bql/semantic", "ElementHook")) {
 			c.ok(key, fn.Pos(), "hook closure: the parser discards the returned hook value (rule G6)")
@@ -100,6 +108,57 @@ func ruleL2(c *Ctx, min int, rels ...string) {
 		}
 		c.bad(key, fn.Pos(), "%s returns a nil value together with a nil error at %v: a caller that checks only the error goes on to use the nil value (nil dereference) or reports success for a failure", funcName(fn), bad)
 	}
+}
+
+// callersTestResult: "" when fn is only called statically and at every call site each use of its first result other
+// than a comparison with nil is dominated by the non-nil edge of such a comparison (or the result is unused);
+// otherwise what was found.
+func (c *Ctx) callersTestResult(fn *ssa.Function) string {
+	idx := c.callSites()
+	if idx.escapes[fn] {
+		return "the function is used as a value"
+	}
+	sites := idx.sites[fn]
+	if len(sites) == 0 {
+		return "no call site"
+	}
+	for _, site := range sites {
+		call, ok := site.(*ssa.Call)
+		if !ok || call.Referrers() == nil {
+			continue
+		}
+		cfi := c.fi(site.Parent())
+		for _, r := range *call.Referrers() {
+			ex, ok := r.(*ssa.Extract)
+			if !ok || ex.Index != 0 || ex.Referrers() == nil {
+				continue
+			}
+			for _, use := range *ex.Referrers() {
+				if bo, ok := use.(*ssa.BinOp); ok && (bo.Op == token.EQL || bo.Op == token.NEQ) && (isNilConst(bo.X) || isNilConst(bo.Y)) {
+					continue
+				}
+				if _, ok := use.(*ssa.DebugRef); ok {
+					continue
+				}
+				guarded := false
+				for _, ft := range cfi.factsAt(use.Block()) {
+					bo, ok := ft.Cond.(*ssa.BinOp)
+					if !ok || (bo.Op != token.EQL && bo.Op != token.NEQ) {
+						continue
+					}
+					if (bo.X == ssa.Value(ex) && isNilConst(bo.Y)) || (bo.Y == ssa.Value(ex) && isNilConst(bo.X)) {
+						if (bo.Op == token.NEQ) == ft.Truth {
+							guarded = true
+						}
+					}
+				}
+				if !guarded {
+					return "used at " + c.pos(use.Pos()) + " without a nil test"
+				}
+			}
+		}
+	}
+	return ""
 }
 
 // ---- L3 comma-ok dereference ---------------------------------------------------------------------
@@ -248,6 +307,106 @@ func (c *Ctx) closureJoins(f *ssa.Function, isJoin func(ssa.Instruction) bool) b
 		}
 	})
 	return res
+}
+
+// waitFuncOf: v is the bound method value wg.Wait of a sync.WaitGroup; returns the wait group's cell.
+func waitFuncOf(v ssa.Value) ssa.Value {
+	mc, ok := v.(*ssa.MakeClosure)
+	if !ok || len(mc.Bindings) != 1 {
+		return nil
+	}
+	f, ok := mc.Fn.(*ssa.Function)
+	if !ok || f.Synthetic == "" {
+		return nil
+	}
+	isWait := false
+	allInstrs(f, func(in ssa.Instruction) {
+		if cc := callCommon(in); cc != nil && isCallTo(cc, "sync", "Wait") {
+			isWait = true
+		}
+	})
+	if !isWait {
+		return nil
+	}
+	return mc.Bindings[0]
+}
+
+// returnsJoinFunc: every return of fn hands back, as result idx, the Wait method value of one of the given wait groups.
+func (c *Ctx) returnsJoinFunc(fn *ssa.Function, wgs []ssa.Value) (int, bool) {
+	idx := -1
+	rets := c.returnsOf(fn)
+	if len(rets) == 0 {
+		return -1, false
+	}
+	for _, r := range rets {
+		found := -1
+		for i, rv := range resultValues(r) {
+			if w := waitFuncOf(rv); w != nil {
+				for _, g := range wgs {
+					if g == w {
+						found = i
+					}
+				}
+			}
+		}
+		if found < 0 || (idx >= 0 && idx != found) {
+			return -1, false
+		}
+		idx = found
+	}
+	return idx, true
+}
+
+// joinFuncCalled: at the call site of a function that hands back its join as a func value, that value is called on
+// every path from the site to every return of the caller. "" if so.
+func (c *Ctx) joinFuncCalled(site ssa.Instruction, resIdx int) string {
+	call, ok := site.(*ssa.Call)
+	if !ok {
+		return "the function is not called by a plain call at " + c.pos(site.Pos())
+	}
+	caller := site.Parent()
+	var fv ssa.Value = call
+	if call.Call.Signature().Results().Len() > 1 {
+		fv = nil
+		for _, r := range *call.Referrers() {
+			if ex, ok := r.(*ssa.Extract); ok && ex.Index == resIdx {
+				fv = ex
+			}
+		}
+	}
+	if fv == nil {
+		return "the returned join function is dropped at " + c.pos(site.Pos())
+	}
+	isCallOf := func(in ssa.Instruction) bool {
+		cc := callCommon(in)
+		if cc == nil || cc.IsInvoke() {
+			return false
+		}
+		if _, isDefer := in.(*ssa.Defer); isDefer && resolveParam(cc.Value) == fv {
+			return true
+		}
+		_, isCall := in.(*ssa.Call)
+		return isCall && resolveParam(cc.Value) == fv
+	}
+	type st struct{ after, called bool }
+	tr := func(s st, in ssa.Instruction) st {
+		if in == site {
+			return st{after: true}
+		}
+		if s.after && isCallOf(in) {
+			s.called = true
+		}
+		return s
+	}
+	atRet, _ := flow(c, caller, st{}, tr, nil)
+	for r, ss := range atRet {
+		for s := range ss {
+			if s.after && !s.called {
+				return "the join function returned at " + c.pos(site.Pos()) + " is not called on a path returning at " + c.pos(r.Pos())
+			}
+		}
+	}
+	return ""
 }
 
 func ruleL6(c *Ctx, min int, rels ...string) {
@@ -467,6 +626,27 @@ func ruleL6(c *Ctx, min int, rels ...string) {
 			if len(doneWG) == 0 && len(sendsOn) == 0 {
 				c.bad(key, g.Pos(), "the goroutine started at %s signals neither a WaitGroup nor a channel captured from %s: nothing can join it, it may outlive the call", c.pos(g.Pos()), funcName(fn))
 				continue
+			}
+			if len(bad) > 0 && len(doneWG) > 0 && fn.Parent() == nil {
+				// the join is handed back to the caller as a func value (return wg.Wait): every caller must call it
+				if ri, ok := c.returnsJoinFunc(fn, doneWG); ok {
+					idx := c.callSites()
+					why := ""
+					if idx.escapes[fn] || len(idx.sites[fn]) == 0 {
+						why = "the function handing back its join is used as a value or never called"
+					}
+					for _, site := range idx.sites[fn] {
+						if w := c.joinFuncCalled(site, ri); w != "" && why == "" {
+							why = w
+						}
+					}
+					if why == "" {
+						c.ok(key, g.Pos(), "the join (wg.Wait) is returned to the caller, and each of the %d call sites calls it on every path", len(idx.sites[fn]))
+					} else {
+						c.bad(key, g.Pos(), "the goroutine started at %s hands its join back as a function, but %s", c.pos(g.Pos()), why)
+					}
+					continue
+				}
 			}
 			if len(bad) > 0 {
 				c.bad(key, g.Pos(), "the goroutine started at %s is not joined on the path(s) returning at %v: it can still be running (or blocked on its channel) after the call has returned", c.pos(g.Pos()), uniq(bad))
@@ -919,6 +1099,20 @@ func ruleIO1(c *Ctx) {
 		allInstrs(wf, func(in ssa.Instruction) {
 			if call, ok := in.(*ssa.Call); ok && isCallTo(&call.Call, "sync", "Wait") {
 				joined = true
+			}
+			// or the join function a spawning helper handed back
+			if call, ok := in.(*ssa.Call); ok && !call.Call.IsInvoke() && call.Call.StaticCallee() == nil {
+				if src, ok := resolveParam(call.Call.Value).(*ssa.Call); ok {
+					if callee := helperCallee(wf, &src.Call); callee != nil {
+						for _, r := range c.returnsOf(callee) {
+							for _, rv := range resultValues(r) {
+								if waitFuncOf(rv) != nil {
+									joined = true
+								}
+							}
+						}
+					}
+				}
 			}
 		})
 		c.check(joined, "WriteGraph joins the producer", wf.Pos(), "wg.Wait() before returning", "WriteGraph returns without waiting for the producer goroutine")
